@@ -22,6 +22,11 @@ import (
 const prop = "C15"
 
 // roundTrip applies the structural oracle to one document.
+const foreignDoc = `<?xml version="1.0" encoding="UTF-8"?>
+<bpmn:definitions xmlns:bpmn="http://www.omg.org/spec/BPMN/20100524/MODEL" id="Foreign_Defs" name="foreign" targetNamespace="urn:foreign" expressionLanguage="urn:foreign:lang" typeLanguage="urn:foreign:types" exporter="x" exporterVersion="9">
+<bpmn:process id="Foreign_Proc" isExecutable="false" processType="Public" isClosed="true"><bpmn:task id="Foreign_Task" name="ft" startQuantity="7" completionQuantity="3" isForCompensation="true"/></bpmn:process>
+</bpmn:definitions>`
+
 func roundTrip(x []byte) (sym, det string, m1, m2 *schema.Definitions) {
 	m1, err := schema.Parse(x)
 	if err != nil {
@@ -48,6 +53,21 @@ func roundTrip(x []byte) (sym, det string, m1, m2 *schema.Definitions) {
 	}
 	if d := equiv(m1, ref); len(d) > 0 {
 		return "model-altered", "serialising changed the model: " + strings.Join(d, "; "), m1, m2
+	}
+	// a parsed model is a value of its own: parsing an unrelated document
+	// (other expression / type language, other target namespace) must not
+	// change what an already parsed model says
+	if _, err := schema.Parse([]byte(foreignDoc)); err == nil {
+		x2b, err := xml.Marshal(m1)
+		if err != nil {
+			return "marshal", err.Error(), m1, m2
+		}
+		if string(x2b) != string(x2) {
+			return "model-shared-state", fmt.Sprintf("parsing another document changed the serialisation of an already parsed model (%d vs %d bytes): models share state", len(x2b), len(x2)), m1, m2
+		}
+		if d := equiv(m1, m2); len(d) > 0 {
+			return "model-shared-state", "after parsing another document the model differs from its own re-parse: " + strings.Join(d, "; "), m1, m2
+		}
 	}
 	// every id is retrievable by that id, in both models
 	// (ids of BPMN model elements; diagram-interchange elements are not base
